@@ -15,7 +15,7 @@ from .. import bases, bootstrap, contracts, fingerprint as fpr
 
 PROPERTY = "C08"
 RULE = ("Every settable property (by reflection) of every class x base shapes in general position x positive targets at length "
-        "ratios {1e-3,0.05,0.37,1,2.9,40,1e3} and targets 0, -0.0, -1, nan (+inf on the vertex-based classes); thorough adds random chains of setters.  Properties "
+        "ratios {1e-3,0.05,0.37,1,1+2e-6,1-7e-6,2.9,40,1e3} and targets 0, -0.0, -1, nan (+inf on the vertex-based classes); thorough adds random chains of setters.  Properties "
         "whose getter raises on the base shape (no circumsphere, not implemented) are 'not provided', not judged.  Non-trivial = "
         "every (class, base, property, target) combination with ratio != 1 or a bad target; distinct = that tuple.")
 ASSUMPTIONS = ["single-parameter setters (semi-axis a/b/c, rounding radius) are judged on read-back, on leaving every other parameter "
@@ -27,7 +27,7 @@ ANCHORS = ["coxeter.shapes.polygon:Polygon._rescale", "coxeter.shapes.polyhedron
            "coxeter.shapes.base_classes:Shape3D.minimal_bounding_sphere_radius", "coxeter.shapes.base_classes:Shape2D.minimal_bounding_circle_radius"]
 REQUIRED_MONITORS = ["read-back", "similarity", "dimensionless-preserved", "scaling-law", "bad-target-refused", "translation"]
 EXHAUSTIVE = False
-RATIOS = (1e-3, 0.05, 0.37, 1.0, 2.9, 40.0, 1e3)
+RATIOS = (1e-3, 0.05, 0.37, 1.0, 1.0 + 2e-6, 1.0 - 7e-6, 2.9, 40.0, 1e3)     # incl. targets a few ppm from the current value
 BAD = (0.0, -0.0, -1.0, float("nan"), float("inf"))
 SINGLE = {("Ellipse", "a"), ("Ellipse", "b"), ("Ellipsoid", "a"), ("Ellipsoid", "b"), ("Ellipsoid", "c"),
           ("ConvexSpheropolygon", "radius"), ("ConvexSpheropolyhedron", "radius")}
